@@ -12,6 +12,7 @@ use crate::std_ext::SMap;
 verus! {
 
 // ------------------------------------------------------------------------------ Item
+#[derive(Debug)]
 pub struct Item<'a, T> { pub ns: &'a str, pub p: PhantomData<T> }
 impl<'a, T: Serialize> Item<'a, T> {
     pub const fn new(ns: &'a str) -> (r: Self) { Item { ns, p: PhantomData } }
@@ -50,6 +51,7 @@ impl<'a> Bounder<'a> for u64 { open spec fn k64(self) -> u64 { self } }
 pub trait KeyDeserialize { type Output; }
 impl KeyDeserialize for u64 { type Output = u64; }
 
+#[derive(Debug)]
 pub enum Bound<'a, K> { Inclusive((K, PhantomData<&'a bool>)), Exclusive((K, PhantomData<&'a bool>)) }
 impl<'a, K> Bound<'a, K> {
     pub fn exclusive(k: K) -> (r: Self)
@@ -127,6 +129,7 @@ pub open spec fn range_of<'a, K: Bounder<'a>, V>(
 }
 
 // ------------------------------------------------------------------------------ Map<u64, V>
+#[derive(Debug)]
 pub struct Map<'a, K, V> { pub ns: &'a str, pub p: PhantomData<(K, V)> }
 impl<'a, K: Bounder<'a>, V: Serialize> Map<'a, K, V> {
     pub const fn new(ns: &'a str) -> (r: Self) { Map { ns, p: PhantomData } }
@@ -184,7 +187,9 @@ use crate::std_ext::SMap;
 use core::marker::PhantomData;
 use super::{MapRange, Bound};
 verus! {
+#[derive(Debug)]
 pub struct UniqueIndex<'a, IK, T, PK = ()> { pub ns: &'a str, pub p: PhantomData<(IK, T, PK)> }
+#[derive(Debug)]
 pub struct IndexedMap<'a, K, T, I> { pub ns: &'a str, pub idx: I, pub p: PhantomData<(K, T)> }
 
 pub open spec fn imap_opt<V>(m: SMap<(u64, String), V>, k: (u64, String)) -> Option<V> {
@@ -203,15 +208,15 @@ impl<'a, T: Serialize, I> IndexedMap<'a, (u64, String), T, I> {
     #[verifier::external_body]
     pub fn save(&self, s: &mut Storage, k: (u64, String), v: &T) -> (r: StdResult<()>)
         ensures
-            r is Ok ==> final(s)@ == T::imap_put(old(s)@, T::imap_get(old(s)@).insert(k, *v)),
-            r is Err ==> final(s)@ == old(s)@,
+            r is Ok,
+            final(s)@ == T::imap_put(old(s)@, T::imap_get(old(s)@).insert(k, *v)),
     { unimplemented!() }
     /// indexed_map.rs `remove`: Ok also when the key is absent
     #[verifier::external_body]
     pub fn remove(&self, s: &mut Storage, k: (u64, String)) -> (r: StdResult<()>)
         ensures
-            r is Ok ==> final(s)@ == T::imap_put(old(s)@, T::imap_get(old(s)@).remove(k)),
-            r is Err ==> final(s)@ == old(s)@,
+            r is Ok,
+            final(s)@ == T::imap_put(old(s)@, T::imap_get(old(s)@).remove(k)),
     { unimplemented!() }
     #[verifier::external_body]
     pub fn update<A, E>(&self, s: &mut Storage, k: (u64, String), action: A) -> (r: Result<T, E>)
@@ -228,6 +233,7 @@ impl<'a, T: Serialize, I> IndexedMap<'a, (u64, String), T, I> {
         ensures r.batch == p
     { unimplemented!() }
 }
+#[derive(Debug)]
 pub struct IPrefix<T> { pub batch: u64, pub p: PhantomData<T> }
 impl<T: Serialize> IPrefix<T> {
     /// entries of one batch, ordered by user string
